@@ -101,7 +101,9 @@ def check_C02(tier, seed):
     sel = os.path.join(C.OUT, "C02-vec-timegm.ndjson")
     with open(sel, "w") as f:
         for l in open(vec):
-            if '"op":"timegm"' in l:
+            # calendar -> Unix -> calendar is the identity: the timegm vector of a date and the gmtime vector of the instant it denotes
+            # are both replayed here (the gmtime half alone is C01's)
+            if '"op":"timegm"' in l or '"op":"gmtime"' in l:
                 f.write(l)
     run_pipeline(res, binary, "vec", vec_path=sel, validate=False)
     n = 15000 if tier == "quick" else 200000
@@ -375,7 +377,11 @@ def mc_sessions(res, binary, tier, seed):
     validated by the trace specification as well."""
     q = tier == "quick"
     consts = {k: f"<- {k}C" for k in ("Zones", "Instants", "LocalTimes", "Files", "TzValues", "Dirs", "Vfs", "Rules", "TzStrings", "Nanos")}
-    consts.update(MaxSteps=2 if q else 3, EmitMod=1 if q else 23, EmitRem=0 if q else seed % 23)
+    if not q:
+        # thorough: the invariants and action properties on all sessions of three calls (no history variable: 3 calls over these menus are
+        # ~7e5 paths); the replay below stays at two calls per session, every session trace-validated
+        res.add_mc(run_mc("MC_TzRs", dict(consts, MaxSteps=3), invariants=("Invariants",), workers=C.NCPU, timeout=6000, xmx="12g", extra_cfg="PROPERTY FrameOK\nPROPERTY BufFrame\n"))
+    consts.update(MaxSteps=2, EmitMod=1, EmitRem=0)
     raw = os.path.join(C.OUT, f"{res.pid}-sessions.raw")
     os.makedirs(C.OUT, exist_ok=True)
     # one TLC run: the system model's invariants and action properties on every behaviour, and the behaviours printed for the replay
@@ -390,7 +396,7 @@ def mc_sessions(res, binary, tier, seed):
             v = json.loads(l)
             lines = [json.dumps(e, separators=(",", ":")) + "\n" for e in session_events(v["session"], v["dirs"], v["vfs"], k)]
             f.writelines(lines)
-            if k % 5 == seed % 5:
+            if not q or k % 5 == seed % 5:
                 f2.writelines(lines); nval += 1
             nsess += 1
     os.remove(raw)
